@@ -1,4 +1,5 @@
 import PycsepVerif.Proofs.FloatSum
+import PycsepVerif.Proofs.FloatSumPairwise
 
 /-!
 # C20 — "unchanged (to rounding)": float sums in ANY order and ANY bracketing agree up to a proved bound
@@ -117,6 +118,69 @@ theorem float_sum_integers_any_order (t t' : STree) (h : ∀ x ∈ t.leaves, ∃
   rw [(float_sum_integers_exact t h hb).1,
     (float_sum_integers_exact t' (fun x hx => h x (hp.mem_iff.mpr hx)) (by rw [← absSum_perm hp]; exact hb)).1, hp.sum_eq]
 
+/-! ### `numpy.sum` itself: `pairwiseSum` is a bracketing of its terms (the single validated statement left is
+"numpy.sum of a contiguous float64 array = `pairwiseSum`", compared bit for bit on every run) -/
+
+/-- **numpy's pairwise sum is the float value of a bracketing whose leaves are its terms** (plus zeros), `≤ 25 + levels` deep -/
+theorem numpy_sum_is_bracketing (fuel : ℕ) (xs : List ℚ) :
+    ∃ t : STree, t.evalF = pairwiseSum fuel xs ∧ (∃ m : ℕ, t.leaves.Perm (List.replicate m 0 ++ xs)) ∧
+      (∀ f, fuel = f + 1 → xs.length ≤ 112 * 2 ^ f + 16 → t.depth ≤ 25 + f) :=
+  ⟨pwTree fuel xs, pwTree_evalF fuel xs, pwTree_leaves fuel xs, fun f hf hl => by subst hf; exact pwTree_depth f xs hl⟩
+
+/-- **error of `numpy.sum`** against the exact sum of its float64 terms -/
+theorem numpy_sum_error (fuel : ℕ) (xs : List ℚ) (h : ∀ x ∈ xs, IsF64 x) :
+    |pairwiseSum fuel xs - xs.sum| ≤ ((1 + u) ^ (pwTree fuel xs).depth - 1) * absSum xs := by
+  obtain ⟨m, hp⟩ := pwTree_leaves fuel xs
+  have hall : (pwTree fuel xs).AllF64 := by
+    intro x hx
+    rcases List.mem_append.mp (hp.mem_iff.mp hx) with h0 | h1
+    · rw [(List.mem_replicate.mp h0).2]; exact fl64_zero
+    · exact h x h1
+  have := evalF_err (pwTree fuel xs) hall
+  rwa [pwTree_evalF, hp.sum_eq, sum_zeros, absSum_perm hp, absSum_zeros] at this
+
+/-- **`numpy.sum` of permuted terms** (re-ordered events / catalogs / cells): the two results differ by at most
+    `((1+u)^d + (1+u)^d' − 2)·Σ|x|` with `d, d' ≤ 25 + levels` -/
+theorem numpy_sum_perm_close (fuel fuel' : ℕ) (xs ys : List ℚ) (h : ∀ x ∈ xs, IsF64 x) (hp : xs.Perm ys) :
+    |pairwiseSum fuel xs - pairwiseSum fuel' ys| ≤
+      ((1 + u) ^ (pwTree fuel xs).depth + (1 + u) ^ (pwTree fuel' ys).depth - 2) * absSum xs := by
+  have e1 := numpy_sum_error fuel xs h
+  have e2 := numpy_sum_error fuel' ys (fun y hy => h y (hp.mem_iff.mpr hy))
+  rw [← absSum_perm hp, ← hp.sum_eq] at e2
+  have : pairwiseSum fuel xs - pairwiseSum fuel' ys = (pairwiseSum fuel xs - xs.sum) - (pairwiseSum fuel' ys - xs.sum) := by ring
+  rw [this]
+  have := abs_sub (pairwiseSum fuel xs - xs.sum) (pairwiseSum fuel' ys - xs.sum)
+  nlinarith [absSum_nonneg xs]
+
+/-- explicit: arrays of up to `112·2^f + 16` terms (f = 9: 57 360 terms; f = 16: 7.3 million) summed by `numpy.sum` in two
+    storage orders agree to `(25 + f)·2^-51·Σ|x|` -/
+theorem numpy_sum_perm_close_explicit (f : ℕ) (xs ys : List ℚ) (h : ∀ x ∈ xs, IsF64 x) (hp : xs.Perm ys)
+    (hl : xs.length ≤ 112 * 2 ^ f + 16) (hf : 25 + f ≤ 2 ^ 52) :
+    |pairwiseSum (f + 1) xs - pairwiseSum (f + 1) ys| ≤ ((25 + f : ℕ) : ℚ) * (4 * u) * absSum xs := by
+  have := numpy_sum_perm_close (f + 1) (f + 1) xs ys h hp
+  have d1 := pwTree_depth f xs hl
+  have d2 := pwTree_depth f ys (by rw [← hp.length_eq]; exact hl)
+  have h1u : (1 : ℚ) ≤ 1 + u := by linarith [u_pos]
+  have p1 := pow_le_pow_right₀ h1u d1
+  have p2 := pow_le_pow_right₀ h1u d2
+  have b := pow_bound (25 + f) hf
+  have hA := absSum_nonneg xs
+  have hc : (1 + u) ^ (pwTree (f + 1) xs).depth + (1 + u) ^ (pwTree (f + 1) ys).depth - 2 ≤ ((25 + f : ℕ) : ℚ) * (4 * u) := by
+    linarith
+  exact le_trans this (mul_le_mul_of_nonneg_right hc hA)
+
+/-- sums of counts by `numpy.sum`: exact, hence identical for every storage order -/
+theorem numpy_sum_integers_exact (fuel : ℕ) (xs : List ℚ) (h : ∀ x ∈ xs, ∃ n : ℤ, x = n) (hb : absSum xs < 2 ^ 53) :
+    pairwiseSum fuel xs = xs.sum := by
+  obtain ⟨m, hp⟩ := pwTree_leaves fuel xs
+  have hint : ∀ x ∈ (pwTree fuel xs).leaves, ∃ n : ℤ, x = n := by
+    intro x hx
+    rcases List.mem_append.mp (hp.mem_iff.mp hx) with h0 | h1
+    · exact ⟨0, by rw [(List.mem_replicate.mp h0).2]; simp⟩
+    · exact h x h1
+  have := (float_sum_integers_exact (pwTree fuel xs) hint (by rw [absSum_perm hp, absSum_zeros]; exact hb)).1
+  rwa [pwTree_evalF, hp.sum_eq, sum_zeros] at this
+
 /-! ### non-vacuity (kernel-evaluated on Soft64) -/
 
 -- 0.1 + 0.2 + 0.3 in the two bracketings: the float results differ (0.6000000000000001 and 0.6) …
@@ -130,5 +194,8 @@ example : (node (node (leaf (fl64 (1/10))) (leaf (fl64 (2/10)))) (leaf (fl64 (3/
   simp only [leaves, List.cons_append, List.nil_append, List.mem_cons, List.not_mem_nil, or_false] at hx
   rcases hx with rfl | rfl | rfl <;> exact isF64_fl64 _
 example : seqSum [3, 1, 2] = 6 ∧ pairwiseSum 8 [3, 1, 2] = 6 := by decide +kernel
+-- nine terms: the eight-accumulator branch; 1..9 sum to 45 exactly, in this and in the reversed order
+example : pairwiseSum 8 [1, 2, 3, 4, 5, 6, 7, 8, 9] = 45 ∧ pairwiseSum 8 [9, 8, 7, 6, 5, 4, 3, 2, 1] = 45 := by decide +kernel
+example : (pwTree 8 [1, 2, 3, 4, 5, 6, 7, 8, 9]).depth = 4 := by decide +kernel
 
 end FloatSum
